@@ -19,6 +19,7 @@ pub fn def() -> PropDef {
         ],
         run,
         replay,
+        minimize: None,
     }
 }
 
